@@ -529,8 +529,12 @@ macro_rules! msm_data_seg_frag {
 
                 let sat_len = mask_len_u64(sat_mask);
                 let sig_len = mask_len_u32(sig_mask);
+                let cell_cont_len = sat_len * sig_len;
+                if cell_cont_len > 64 || cell_cont_len == 0 {
+                    return Err(RtcmError::InvalidSatelliteSignalCount);
+                }
 
-                let cell_mask = par.parse::<U64>(sat_len * sig_len)?;
+                let cell_mask = par.parse::<U64>(cell_cont_len)?;
                 if let Some((sat_vec, cell_vec)) = cell_mask_id_vec(sat_mask, sig_mask, cell_mask) {
                     let satellite_data = $sat_id::decode(par, &sat_vec)?;
                     let signal_data = $sig_id::decode(par, &cell_vec)?;
